@@ -32,6 +32,11 @@ pub fn generate(rng: &mut Rng, thorough: bool) -> Vec<String> {
     for _ in 0..(if thorough { 10 } else { 3 }) {
         v.push(format!("w20_case {} {}", rng.next() % 1_000_000, *rng.pick(&[5u32, 12, 30])));
     }
+    for kind in ["unknown-zone", "out-of-range"] {
+        for _ in 0..(if thorough { 4 } else { 1 }) {
+            v.push(format!("w20_failw {} {kind}", rng.next() % 1_000_000));
+        }
+    }
     for k in 0..(if thorough { 60 } else { 12 }) {
         v.push(format!("w20_fail {} {}", rng.next() % 1_000_000, ["unknown-zone", "out-of-range", "panic-holding-lock"][k % 3]));
     }
@@ -188,6 +193,68 @@ pub fn eval(t: &[&str]) -> Option<String> {
                 }
             }
             Some(match bad { None => "ok same".into(), Some(b) => format!("ok differ {b}") })
+        }
+        "w20_failw" => {
+            // every convenience wrapper is made to fail (unknown zone; a result outside the range), one after the
+            // other, each followed by ordinary calls: no failure may leave the shared provider unusable
+            let mut rng = Rng::new(i(t[1]) as u64);
+            let _ = call(&mut rng);
+            let bad_zone = t[2] == "unknown-zone";
+            let zb = ZonedDateTime::try_new(0, Calendar::default(), TimeZone::IanaIdentifier("No/Such_Zone".into())).unwrap();
+            let apia = TimeZone::try_from_str("Pacific/Apia").unwrap();
+            let zmax = ZonedDateTime::try_new(8_640_000_000_000_000_000_000, Calendar::default(), apia.clone()).unwrap();
+            let zmin = ZonedDateTime::try_new(-8_640_000_000_000_000_000_000, Calendar::default(), TimeZone::try_from_str("America/New_York").unwrap()).unwrap();
+            let day = duration_from(&["0", "0", "0", "1", "0", "0", "0", "0", "0", "0"]).unwrap();
+            let years = duration_from(&["300000", "0", "0", "0", "0", "0", "0", "0", "0", "0"]).unwrap();
+            let mk = || { let mut s = DifferenceSettings::default(); s.largest_unit = Some(Unit::Day); s };
+            let r = if bad_zone { &zb } else { &zmax };
+            let e = |x: Result<(), temporal_rs::TemporalError>| x.is_err();
+            let calls: Vec<(&str, Box<dyn Fn() -> bool + '_>)> = vec![
+                ("year", Box::new(|| e(r.year().map(|_| ())))), ("month", Box::new(|| e(r.month().map(|_| ())))),
+                ("month_code", Box::new(|| e(r.month_code().map(|_| ())))), ("day", Box::new(|| e(r.day().map(|_| ())))),
+                ("hour", Box::new(|| e(r.hour().map(|_| ())))), ("minute", Box::new(|| e(r.minute().map(|_| ())))),
+                ("second", Box::new(|| e(r.second().map(|_| ())))), ("millisecond", Box::new(|| e(r.millisecond().map(|_| ())))),
+                ("microsecond", Box::new(|| e(r.microsecond().map(|_| ())))), ("nanosecond", Box::new(|| e(r.nanosecond().map(|_| ())))),
+                ("offset", Box::new(|| e(r.offset().map(|_| ())))), ("offset_nanoseconds", Box::new(|| e(r.offset_nanoseconds().map(|_| ())))),
+                ("era", Box::new(|| e(r.era().map(|_| ())))), ("era_year", Box::new(|| e(r.era_year().map(|_| ())))),
+                ("day_of_week", Box::new(|| e(r.day_of_week().map(|_| ())))), ("day_of_year", Box::new(|| e(r.day_of_year().map(|_| ())))),
+                ("week_of_year", Box::new(|| e(r.week_of_year().map(|_| ())))), ("year_of_week", Box::new(|| e(r.year_of_week().map(|_| ())))),
+                ("days_in_week", Box::new(|| e(r.days_in_week().map(|_| ())))), ("days_in_month", Box::new(|| e(r.days_in_month().map(|_| ())))),
+                ("days_in_year", Box::new(|| e(r.days_in_year().map(|_| ())))), ("months_in_year", Box::new(|| e(r.months_in_year().map(|_| ())))),
+                ("in_leap_year", Box::new(|| e(r.in_leap_year().map(|_| ())))), ("hours_in_day", Box::new(|| e(r.hours_in_day().map(|_| ())))),
+                ("get_time_zone_transition", Box::new(|| e(r.get_time_zone_transition(temporal_rs::provider::TransitionDirection::Next).map(|_| ())))),
+                ("with_plain_time", Box::new(|| e(r.with_plain_time(temporal_rs::PlainTime::default()).map(|_| ())))),
+                ("add", Box::new(|| e(r.add(&day, None).map(|_| ())))),
+                ("add-far", Box::new(|| e(r.add(&years, None).map(|_| ())))),
+                ("subtract", Box::new(|| e((if bad_zone { &zb } else { &zmin }).subtract(&day, None).map(|_| ())))),
+                ("subtract-far", Box::new(|| e((if bad_zone { &zb } else { &zmin }).subtract(&years, None).map(|_| ())))),
+                ("since", Box::new(|| e(r.since(&zmin, mk()).map(|_| ())))), ("until", Box::new(|| e(r.until(&zmin, mk()).map(|_| ())))),
+                ("start_of_day", Box::new(|| e((if bad_zone { &zb } else { &zmin }).start_of_day().map(|_| ())))),
+                ("to_plain_date", Box::new(|| e(r.to_plain_date().map(|_| ())))), ("to_plain_time", Box::new(|| e(r.to_plain_time().map(|_| ())))),
+                ("to_plain_datetime", Box::new(|| e(r.to_plain_datetime().map(|_| ())))),
+                ("to_ixdtf_string", Box::new(|| e(r.to_ixdtf_string(temporal_rs::options::DisplayOffset::Auto, temporal_rs::options::DisplayTimeZone::Auto, temporal_rs::options::DisplayCalendar::Auto, Default::default()).map(|_| ())))),
+                ("from_str", Box::new(|| e(ZonedDateTime::from_str(if bad_zone { "2020-01-01T00:00[No/Such_Zone]" } else { "+275760-09-13T23:59:59[Pacific/Apia]" }, Default::default(), temporal_rs::options::OffsetDisambiguation::Reject).map(|_| ())))),
+                ("display", Box::new(|| { let _ = std::panic::catch_unwind(|| r.to_string()); true })),
+            ];
+            let mut bad = None;
+            let mut failed = 0;
+            for (name, f) in &calls {
+                if f() { failed += 1; }
+                for j in 0..2 {
+                    let (a, b) = call(&mut rng);
+                    if a != b && bad.is_none() {
+                        bad = Some(format!("call {j} after a failing {name}: {a} | {b}"));
+                    }
+                }
+            }
+            // the test is only meaningful if the calls did fail: nearly all with an unknown zone, the arithmetic and
+            // parsing ones with an out-of-range result
+            let enough = if bad_zone { failed * 4 >= calls.len() * 3 } else { failed >= 5 };
+            Some(match bad {
+                None if enough => "ok same".into(),
+                None => format!("ok differ only {failed} of {} calls failed", calls.len()),
+                Some(b) => format!("ok differ {b}"),
+            })
         }
         _ => None,
     }
